@@ -14,11 +14,11 @@ def run(c):
     if c.replay:
         harness(c, 1, replay_ops=c.replay.get("replay_ops") or [])
     else:
-        harness(c, 30000 if c.thorough else 2500)
+        harness(c, 120000 if c.thorough else 10000)
 
     def search():
         c.seed += 1000
-        harness(c, 8000)
+        harness(c, 20000)
 
     return c.finish(
         rule="random SMTP and LMTP sessions against a REAL endpoint over loopback TCP (go-smtp server + maddy Session + msgpipeline built from configuration text): "
